@@ -4,8 +4,8 @@ arrays.FLOAT_AS[0] = "val"
 PROPERTY = "C01"
 LEVEL = "other"
 CONTRACT_MODULES = ["contracts.c01"]
-CARRIERS = ["batchie.data.Screen.__init__", "batchie.data.ExperimentSpace.n_unique_treatments"]
-LEAN = ["Batchie.dense_bound"]
+CARRIERS = ["batchie.data.Screen.__init__", "batchie.data.ExperimentSpace.n_unique_treatments", "batchie.data.ExperimentSpace.n_unique_samples"]
+LEAN = ["Batchie.dense_bound", "Batchie.distinct_le"]
 NATIVE = "c01.py"
 EXPLANATION = (
     "The two encoders are pandas pipelines (drop_duplicates / sort_values / cumsum / merge): no contract within reach can be "
@@ -17,9 +17,10 @@ EXPLANATION = (
     "decodes through the screen's mapping to that cell's (name, dose), sample and plate ids decode, mappings well-formed "
     "(distinct keys, dense ids), supplied mappings stored verbatim; ExperimentSpace.n_unique_treatments = number of distinct "
     "non-control mapping ids and, for dense ids, STRICTLY greater than every id of the mapping (Lean pigeonhole lemma "
-    "dense_bound, instantiated explicitly; through np.setdiff1d / np.unique). BOUNDED ONLY: the encoders themselves, "
-    "numpy_array_is_0_indexed_integers (its VC needs 'sorting a sorted array is the identity'; discharged only unstably, not "
-    "registered), n_unique_samples. Level 'other' because the decisive encoder clauses are bounded.")
+    "dense_bound, instantiated explicitly; through np.setdiff1d / np.unique); ExperimentSpace.n_unique_samples = the length of a "
+    "duplicate-free sample mapping (Lean pigeonhole lemma distinct_le) and therefore strictly greater than every (dense) sample "
+    "id. BOUNDED ONLY: the encoders themselves and numpy_array_is_0_indexed_integers (its VC needs 'sorting a sorted array is "
+    "the identity'; discharged only unstably, not registered). Level 'other' because the decisive encoder clauses are bounded.")
 TRUSTED = ["pyvc symbolic executor; z3 5.1; Lean 4.33 + Mathlib", "ASSUMED encoder contracts (pandas), conformance-tested natively",
            "numpy models: unique, setdiff1d, isin, boolean-mask selection, vstack/split/flatten used by the constructor"]
 ASSUMPTIONS = ["doses are reals on the SMT side (float comparisons <= 0 exact); names are opaque strings with a total order"]
